@@ -58,6 +58,31 @@ pub fn tuple_destructure(tpl_dstrct: &TupleDestructure, p: &Interpreter) -> MRes
   };
   let symbols = p.symbols();
   let mut symbols_brrw = symbols.borrow_mut();
+  // A failing destructure must not define anything: check the arity and every name before the first insert.
+  if let Some(var) = tpl_dstrct.vars.get(tpl.borrow().size()) {
+    return Err(MechError::new(
+      TupleDestructureTooManyVarsError{ value: source.kind() },
+      None
+    ).with_compiler_loc().with_tokens(var.tokens()));
+  }
+  for k in 0..tpl_dstrct.vars.len() {
+    let id = tpl_dstrct.vars[k].hash();
+    if symbols_brrw.contains(id) {
+      return Err(MechError::new(
+        VariableAlreadyDefinedError { id },
+        None
+      ).with_compiler_loc().with_tokens(tpl_dstrct.vars[k].tokens()));
+    }
+    // the same name twice in one pattern is a redefinition too
+    for j in 0..k {
+      if tpl_dstrct.vars[j].hash() == id {
+        return Err(MechError::new(
+          VariableAlreadyDefinedError { id },
+          None
+        ).with_compiler_loc().with_tokens(tpl_dstrct.vars[k].tokens()));
+      }
+    }
+  }
   for (i, var) in tpl_dstrct.vars.iter().enumerate() {
     let id = var.hash();
     if symbols_brrw.contains(id) {
